@@ -232,7 +232,7 @@ def mutate_text(r, text, k):
                 if gen.chance(r, 0.6):
                     t = gen.choice(r, "AifZJHBQ")
                 else:
-                    n = gen.choice(r, ["VN", "TS", "LN", "ID", "RC", "x", "xyz", n])
+                    n = gen.choice(r, ["VN", "TS", "LN", "ID", "RC", "FC", "KC", "SH", "UR", "MQ", "NM", "SN", "SO", "SR", "VN", "TS", "x", "xyz", n])
                 f[j] = "%s:%s:%s" % (n, t, v)
             ln = "\t".join(f)
         elif m == 7:  # duplicate / drop / move a line
@@ -257,8 +257,11 @@ def mutate_text(r, text, k):
                     lines[x] = "\t".join(f)
                 continue
             elif len(lines) < 60:
+                sn = [x.split("\t")[1] for x in lines if x[:2] == "S\t" and x.count("\t") >= 2] or ["A"]
+                a_ = gen.choice(r, sn)
                 lines.append(gen.choice(r, ["U\tuc1\tuc2 A\nU\tuc2\tuc1 B", "O\toc1\toc2+ A+\nO\toc2\toc1- B+", "U\tuc1\tuc1",
-                                            "U\tuc1\tuc2\nU\tuc2\tuc3\nU\tuc3\tuc1 A"]))
+                                            "U\tuc1\tuc2\nU\tuc2\tuc3\nU\tuc3\tuc1 A",
+                                            "O\toc1\t%s+ oc1+ oc1+" % a_, "U\tuc1\t%s uc1 uc1" % a_, "O\toc1\toc1- %s+" % a_]))
                 continue
         elif m == 9:  # reuse an identifier of another line (as a field or as an ID tag)
             idents = [x.split("\t")[1] for x in lines if x.count("\t") >= 1 and x.split("\t")[1] not in ("", "*")]
@@ -344,7 +347,7 @@ def st_text_case(draw):
         nf = r.randint(0, 9)
         fields = [gen.choice(r, ["H", "S", "L", "C", "P", "E", "F", "G", "O", "U", "X", "#", "A1"])]
         for _ in range(nf):
-            fields.append(gen.choice(r, ["*", "A", "A+", "10", "10$", "0", "+", "-", "5M", "1,2", "xx:i:1", "A+,B-", "A B",
+            fields.append(gen.choice(r, ["*", "A", "A+", "10", "10$", "0", "+", "-", "5M", "1,2", "xx:i:1", "A+,B-", "A B", "VN:Z:1.0", "TS:i:1", "LN:i:3", "VN:i:1",
                                          draw(st.text(alphabet=ALPHA.replace("\t", "").replace("\n", ""), max_size=8))]))
         text = "\t".join(fields)
         if as_ == "doc":
@@ -393,9 +396,9 @@ RT_FIELDS = {
              "C": ["from_segment", "to_segment", "pos", "overlap", "container", "contained"],
              "P": ["path_name", "segment_names", "overlaps", "ab", "name"]},
     "gfa2": {"H": ["VN", "TS"], "S": ["sid", "slen", "sequence", "xx", "name"],
-             "E": ["eid", "sid1", "sid2", "beg1", "end1", "beg2", "end2", "alignment", "name"],
+             "E": ["eid", "sid1", "sid2", "beg1", "end1", "beg2", "end2", "alignment", "name", "TS", "VN"],
              "G": ["gid", "sid1", "sid2", "disp", "var", "name"],
-             "F": ["sid", "external", "s_beg", "s_end", "f_beg", "f_end", "alignment"],
+             "F": ["sid", "external", "s_beg", "s_end", "f_beg", "f_end", "alignment", "VN", "TS"],
              "O": ["pid", "items", "name"], "U": ["pid", "items", "name"], "X": ["field1", "field2", "ab"]},
 }
 VALUES2 = ["A+", "B-", "B+", "read2+", "read1-", "nope+", "B", "A", "o1", "u1", "e1", "C", "new1", "A+ B-", "A+,B-", "B A", "2M", "*",
@@ -444,7 +447,7 @@ def st_api_case(draw):
                                   "add_line", "custom_records_of_type", "segment_connected_component"])
             arg = gen.choice(r, NAMES) if meth != "add_line" else gen.choice(
                 r, ["S\tC\t*", "S\tA\t*", "", "\t", "L\tA\t+\tC\t+\t*", "P\tp2\tA+,C+\t*", "U\tu1\tB", "O\to1\tB+", "E\t*\tA+\tC+\t0\t1\t0\t1\t*",
-                    "H\tVN:Z:3.0", "H\tTS:i:x", "#", "S", "X", gen.choice(r, NAMES)])
+                    "H\tVN:Z:3.0", "H\tTS:i:x", "#", "S", "X", "\n", "\n\n", " ", "X\n", "\r", gen.choice(r, NAMES)])
             ops.append(["gfa", meth, arg])
         else:
             meth = gen.choice(r, ["get", "try_get", "set", "delete", "set_datatype", "validate_field", "field_to_s",
